@@ -661,6 +661,10 @@ func (u *Unit) discover(st *State, run func(s *State) []*State) loopMods {
 		saveSafe[k] = v
 	}
 	saveFrames := len(u.xframes)
+	saveExits := make([]int, len(u.xframes))
+	for i, f := range u.xframes {
+		saveExits[i] = len(f.exits)
+	}
 	u.discovering++
 	scratch := st.clone()
 	var outs []*State
@@ -678,6 +682,12 @@ func (u *Unit) discover(st *State, run func(s *State) []*State) loopMods {
 		outs = run(scratch)
 	}()
 	u.discovering--
+	// exits recorded while discovering are not real paths
+	for i, f := range u.xframes {
+		if i < len(saveExits) && len(f.exits) > saveExits[i] {
+			f.exits = f.exits[:saveExits[i]]
+		}
+	}
 	u.obls = u.obls[:saveObls]
 	u.warnings = u.warnings[:saveWarn]
 	u.abstracted = u.abstracted[:saveAbs]
